@@ -4,22 +4,25 @@ import sys, os, subprocess, json, glob
 def sh(cmd, cwd='/verif', timeout=3600):
     p = subprocess.run(cmd, shell=True, cwd=cwd, stdout=subprocess.PIPE, stderr=subprocess.STDOUT, timeout=timeout)
     return p.returncode, p.stdout.decode('utf-8', 'replace')
+# SEED_REPO=<scratch worktree of /repo at HEAD>: apply the changes there and point the checks to it (YALAFI_REPO) instead of
+# patching /repo itself -- for runs while other work needs /repo unchanged
+TARGET = os.environ.get('SEED_REPO', '/repo')
 ids = sys.argv[1:] or sorted(os.path.basename(d) for d in glob.glob('/verif/seeded/C*'))
 res_path = '/verif/seeded/RESULTS.json'
 results = json.load(open(res_path)) if os.path.exists(res_path) else {}
-assert sh('git -C /repo status --porcelain')[1].strip() == '', 'repo not clean'
+assert sh('git -C %s status --porcelain' % TARGET)[1].strip() == '', 'repo not clean'
 for ident in ids:
     prop = ident.split('-')[0]
     if not os.path.exists('/verif/harness/props/%s.py' % prop):
         print(ident, 'no check yet'); continue
-    rc, out = sh('git -C /repo apply /verif/seeded/%s/patch.diff' % ident)
+    rc, out = sh('git -C %s apply /verif/seeded/%s/patch.diff' % (TARGET, ident))
     if rc != 0:
         print(ident, 'patch does not apply', out[-300:]); continue
     try:
-        rc, out = sh('./check %s --tier quick' % prop)
+        rc, out = sh('YALAFI_REPO=%s ./check %s --tier quick' % (TARGET, prop))
         line = [l for l in out.split('\n') if l.startswith('VIOLATION')]
         results[ident] = {'check': prop, 'exit': rc, 'line': line[0] if line else None}
         print(ident, 'exit', rc, line[0] if line else '', '|', [l for l in out.split('\n') if l.startswith('[')][-2:-1])
     finally:
-        sh('git -C /repo checkout -- .')
+        sh('git -C %s checkout -- .' % TARGET)
 json.dump(results, open(res_path, 'w'), indent=1)
